@@ -477,5 +477,45 @@ def r14_8(ctx):
     return r
 
 
+def r14_9(ctx):
+    """'every RTP and RTCP datagram emitted - by normal send, raw send ... - is SRTP/SRTCP-protected under the session keys':
+    protected means protected with the transform of its kind. RtpTransport::send takes a raw buffer of either kind; it
+    used to parse whatever it got as RTP and run the SRTP (RTP) transform. For an RTCP buffer that leaves the first 12+
+    bytes (reportee SSRC, loss counters) in the clear, uses the constant length field / reportee SSRC as packet index
+    (two reports share one keystream) and yields something the peer's SRTCP unprotect rejects. Decided: in
+    RtpTransport::send the protect_rtp call is on the `is_rtcp(buf) == false` edge, and a protect_rtcp call exists on the
+    other one (that each egress follows a successful protect of the sent buffer is R14.1)."""
+    r = RuleResult("R14.9", "K1", "raw send picks the transform by the kind of the buffer (SRTP for RTP, SRTCP for RTCP)")
+    b = ctx.body("transports::rtp::RtpTransport::send::{closure#0}")
+    r.scope.append(b.name)
+    prtp = [bi for bi, t, p in b.calls() if p and p.endswith("::protect_rtp")]
+    prtcp = [bi for bi, t, p in b.calls() if p and p.endswith("::protect_rtcp")]
+    r.need("protect_rtp calls in RtpTransport::send", len(prtp), 1)
+
+    def kind_edge(want):
+        def pred(term, meaning, *_):
+            t, neg = term, False
+            while t[0] == "un" and t[1] == "Not":
+                t, neg = t[2], not neg
+            if t[0] == "call" and t[1].endswith("rtp::is_rtcp") and isinstance(meaning, bool):
+                return (meaning != neg) is want
+            return False
+        return pred
+    g_rtp = core.guard_edges(b, kind_edge(False))
+    g_rtcp = core.guard_edges(b, kind_edge(True))
+    for bi in prtp:
+        if g_rtp and core.k1(b, [bi], g_rtp)[bi] is None:
+            r.ok({"site": b.where(bi), "protect_rtp": "only for buffers that are not RTCP"})
+        else:
+            r.violate(b.name, "raw-send:rtcp-through-rtp-transform", b.where(bi),
+                      "send() runs the RTP transform on whatever buffer it is given: a raw RTCP packet leaves with its report body's first "
+                      "bytes in the clear and under a keystream shared between reports; the peer cannot open it as SRTCP")
+    if prtcp and g_rtcp and all(core.k1(b, [bi], g_rtcp)[bi] is None for bi in prtcp):
+        r.ok({"site": b.where(prtcp[0]), "protect_rtcp": "for buffers classified as RTCP"})
+    else:
+        r.violate(b.name, "raw-send:no-srtcp-path", b.where(0), "send() has no SRTCP path for a raw RTCP buffer")
+    return r
+
+
 def run(ctx):
-    return [r14_1(ctx), r14_2(ctx), r14_3(ctx), r14_4(ctx), r14_5(ctx), r14_6(ctx), r14_7(ctx), r14_8(ctx)]
+    return [r14_1(ctx), r14_2(ctx), r14_3(ctx), r14_4(ctx), r14_5(ctx), r14_6(ctx), r14_7(ctx), r14_8(ctx), r14_9(ctx)]
